@@ -100,6 +100,11 @@ RouteOpsSet ==
                                      t \in {NoneS, Some("other")} \cup (IF FOURPAIRS THEN {Some(RTR)} ELSE {})} :
         a \in AMTS } : r \in GoodRoutes \cup BadRoutes }
 
+\* two independent chains (two dangling outputs) with BOTH chain heads funded: must still be rejected
+TwoHeadOps ==
+    {[op |-> "router_ops", caller |-> "trader", operations |-> <<Hop(UA, TA), Hop(UB, TB)>>, min |-> m, to |-> NoneS,
+      funds |-> <<<<"ua", 1>>, <<"ub", 1>>>>] : m \in {None, Some(0)}}
+
 DirectSwaps ==
     UNION {
       {IF x.native
@@ -116,7 +121,7 @@ InternalCalls ==
     \cup {[op |-> "router_assert_min", caller |-> c, info |-> UA, prev |-> 0, minimum |-> 0, recv |-> "attacker"] : c \in {"attacker", FAC, "p1"}}
     \cup {[op |-> "bank_send", caller |-> "attacker", dest |-> RTR, coins |-> <<<<"ua", 1>>>>]}
 
-Ops == RouteOpsSet \cup DirectSwaps \cup InternalCalls
+Ops == RouteOpsSet \cup TwoHeadOps \cup DirectSwaps \cup InternalCalls
 
 Init == w = InitWorld /\ last = NoEv /\ steps = 0
 Next ==
